@@ -54,6 +54,8 @@ def ast_eval(node, env):
         return math.e
     if t == libsbml.AST_CONSTANT_PI:
         return math.pi
+    if t == libsbml.AST_FUNCTION:
+        raise Undefined(node.getName() + "(...)")
     raise ValueError("unsupported SBML math node type %d (%s)" % (t, libsbml.formulaToL3String(node)))
 
 
@@ -61,6 +63,8 @@ def ast_names(node, acc=None):
     acc = set() if acc is None else acc
     if node.getType() == libsbml.AST_NAME:
         acc.add(node.getName())
+    if node.getType() == libsbml.AST_FUNCTION:
+        acc.add(node.getName() + "(...)")          # a call of a function the document would have to define
     for i in range(node.getNumChildren()):
         ast_names(node.getChild(i), acc)
     return acc
